@@ -145,6 +145,38 @@ static void runSessionClass(const Scenario& sc, vf::Result& res) {
     res.counters["gos_needing_release"] = rel;
 }
 
+// A search that ends by its own limit while its bestmove must still be withheld (go ponder/infinite with depth, nodes
+// or mate): the engine thread waits to be released while the helper threads are still searching. Options, Clear Hash,
+// isready arrive in that window; then the release.
+static void genWithheldWindow(Rng& r, Scenario& sc, pg::GenPos& gp, long long cost) {
+    if (r.chance(0.7)) pushSend(sc, "setoption name Threads value " + std::to_string(r.range(2, 6)));
+    if (r.chance(0.5)) pushSend(sc, "setoption name Ponder value true");
+    pg::anyPosition(r, gp);
+    pushSend(sc, gp.positionCmd);
+    std::string go = r.chance(0.7) ? "go ponder" : "go infinite";
+    int lk = (int)r.below(3);
+    if (lk == 0) go += " depth " + std::to_string(r.range(1, 4));
+    else if (lk == 1) go += " nodes " + std::to_string(r.logRange(1, 2000));
+    else go += " mate " + std::to_string(r.range(1, 2)) + " nodes " + std::to_string(r.logRange(50, 2000));
+    pushSend(sc, go);
+    sc.ops.push_back("wait_ticks 100000"); // falls through as soon as the engine thread sits in its release wait
+    int n = (int)r.range(1, 4);
+    for (int i = 0; i < n; i++) {
+        if (r.chance(0.6)) sc.ops.push_back("wait_us " + std::to_string(r.logRange(1, 40000)));
+        int k = (int)r.below(10);
+        if (k < 4) pushSend(sc, "setoption name Hash value " + std::to_string(r.chance(0.5) ? r.range(1, 4) : r.range(17, 40)));
+        else if (k < 5) pushSend(sc, "setoption name Threads value " + std::to_string(r.range(1, 6)));
+        else if (k < 6) pushSend(sc, "setoption name Clear Hash");
+        else if (k < 7) pushSend(sc, "ucinewgame");
+        else if (k < 8) { pushSend(sc, "isready"); sc.ops.push_back("wait_readyok"); }
+        else pushSend(sc, genSetOption(r, false));
+    }
+    if (r.chance(0.7)) sc.ops.push_back("wait_us " + std::to_string(r.logRange(1, 40000)));
+    pushSend(sc, go.find("ponder") != std::string::npos && r.chance(0.6) ? "ponderhit" : "stop");
+    sc.ops.push_back("wait_bestmove");
+    if (r.chance(0.5)) { pushSend(sc, "isready"); sc.ops.push_back("wait_readyok"); }
+}
+
 // ------------------------------------------------------------------------------------------
 // C05: grammar-generated sessions
 static void genC05(uint64_t seed, int tier, Scenario& sc) {
@@ -188,6 +220,7 @@ static void genC05(uint64_t seed, int tier, Scenario& sc) {
         } else if (k < 91) { pushSend(sc, "ponderhit"); }
         else if (k < 94) { static const char* junk[] = {"xyzzy", "debug on", "register later", "GO", "position", "go searchmoves", "   ", ""}; pushSend(sc, junk[r.below(8)]); }
         else if (k < 96) { pushSend(sc, "quit"); ended = true; }
+        else if (k < 98 && !(searching && !released)) { if (searching) sc.ops.push_back("wait_bestmove"); genWithheldWindow(r, sc, gp, cost); searching = false; released = true; }
         else genGap(r, sc, cost);
         if (!ended) genGap(r, sc, cost);
     }
@@ -222,7 +255,12 @@ static void genC10(uint64_t seed, int tier, Scenario& sc) {
     for (int i = 0; i < nSearch; i++) {
         pg::anyPosition(r, gp);
         pushSend(sc, gp.positionCmd);
-        int script = (int)r.below(8);
+        int script = (int)r.below(9);
+        if (script == 8) { // the bestmove of a self-terminated ponder/infinite search is withheld; options arrive meanwhile
+            sc.ops.push_back("wait_bestmove"); // falls through when no search is pending
+            genWithheldWindow(r, sc, gp, cost);
+            continue;
+        }
         bool nr;
         std::string g = genGo(r, gp, cost, go, nr);
         switch (script) {
